@@ -270,10 +270,18 @@ Section Dyne.
      with hbar = 2; vals = [val, 0] *)
   Definition b_post_select_homodyne (r : vec) (V : mat) (k : nat) (val eps : K) :=
     b_post_select_generaldyne r V (sig_hom eps) k (vec2 val k0).
-  (* BosonicModes.post_select_heterodyne(k, alpha): covmat = hbar*I/2 = I;
-     vals = [alpha.real, alpha.imag] *)
+  (* BosonicModes.post_select_heterodyne(k, v): covmat = hbar*I/2 = I; vals = [v.real, v.imag]
+     (circuit level: v is in quadrature units x + i p) *)
+  Definition bc_post_select_heterodyne (r : vec) (V : mat) (k : nat) (vx vp : K) :=
+    b_post_select_generaldyne r V sig_het k (vec2 vx vp).
+  (* BosonicBackend.measure_heterodyne(k, select=alpha), current source (after fix a15d68b):
+     post_select_heterodyne(k, alpha * sqrt(2*hbar)) with the circuit's hbar = 2, i.e. 2*alpha *)
   Definition b_post_select_heterodyne (r : vec) (V : mat) (k : nat) (are aim : K) :=
-    b_post_select_generaldyne r V sig_het k (vec2 are aim).
+    bc_post_select_heterodyne r V k (two * are) (two * aim).
+  (* the backend entry point as it stood before the fix: alpha handed over unscaled.  Kept so that
+     the refutation of the old behaviour stays machine-checked. *)
+  Definition b_post_select_heterodyne_old (r : vec) (V : mat) (k : nat) (are aim : K) :=
+    bc_post_select_heterodyne r V k are aim.
 
   (* GaussianModes.phase_shift(-phi, k) seen on (mean, cov): c = cos phi, s = sin phi;
      x' = c x + s p ;  p' = - s x + c p  on the quadratures (2k, 2k+1) *)
